@@ -1058,6 +1058,88 @@ def gen_theorems(g, methods, specs, nmods=14):
     return files
 
 
+
+def gen_addr_theorems(g, methods, specs, nmods=13):
+    """methods taking one register and one Address -> relative statement `<m>_addr` (AddrOkR / AddrOkX, proved by a
+    finite split with the address bytes symbolic) + corollaries for Address::offset / index / rip"""
+    items = []
+    for m in methods:
+        if m["admin"] or m["sig"] not in ("ra", "ar", "xa", "ax") or not m["modelled"] or m["name"] not in specs:
+            continue
+        n = m["name"]
+        guard = avx_guard(g, n)
+        isx = "x" in m["sig"]
+        rfun = "Xn" if isx else "Rn"
+        rfin = "X" if isx else "R"
+        pred = "AddrOkX" if isx else "AddrOkR"
+        if m["sig"][0] == "a":
+            call = lambda r: "%s a %s" % (ident(n), r)
+            spec = lambda r, q: "Spec.%s %s %s" % (n, q, r)
+            mfun = "(fun r a => %s a r)" % ident(n)
+            sfun = "(fun r q => Spec.%s q r)" % n
+        else:
+            call = lambda r: "%s %s a" % (ident(n), r)
+            spec = lambda r, q: "Spec.%s %s %s" % (n, r, q)
+            mfun = ident(n)
+            sfun = "Spec.%s" % n
+        gfun = {"true": "(fun _ => true)", "avx": "(fun avx => avx)", "!avx": "(fun avx => !avx)"}[guard]
+        gexp = {"true": "true", "avx": "avx", "!avx": "(!avx)"}[guard]
+        split = "intro avx; addr_split" if guard == "true" else "intro avx; cases avx <;> addr_split"
+        leaf = lambda r: "AddrLeaf (fun a => enc avx (%s)) (fun req => want (%s)) %s" % (call(r), spec(r, "req"), gexp)
+        txt = []
+        txt.append("/-- `%s`, relative to the ModRM interface: for both `has_avx2` values, all 16 registers, every `Address` shape "
+                   "(REX.X/REX.B, 1-6 bytes, arbitrary byte values) and every memory operand the reference decoder reads those "
+                   "address bytes as, the method's bytes decode to exactly `Spec.%s` with that operand (guard `%s`; refused otherwise). -/" % (n, n, guard))
+        txt.append("theorem %s_addr : %s %s %s %s := by" % (n, pred, mfun, sfun, gfun))
+        txt.append("  intro avx dest")
+        txt.append("  revert avx")
+        txt.append("  refine forall_fin16 (p := fun d => ∀ (avx : Bool) (rx rb : Bool) (len : Fin 6),")
+        txt.append("    %s (d %% 8) rx rb (len.val + 1))" % leaf("(%s d)" % rfun))
+        txt.append("    ?_ ?_ ?_ ?_ ?_ ?_ ?_ ?_ ?_ ?_ ?_ ?_ ?_ ?_ ?_ ?_ dest")
+        txt.append("  all_goals (%s)" % split)
+        txt.append("")
+        e = "(fun a => enc avx (%s))" % call("(%s dest)" % rfin)
+        w = "(fun req => want (%s))" % spec("(%s dest)" % rfin, "req")
+        hl = "(fun rx rb len => %s_addr avx dest rx rb len)" % n
+        reg = "⟨dest.val % 8, by omega⟩"
+        txt.append("/-- `%s` with `Address::offset`: every register, every base (incl. rsp/r12/rbp/r13), **every** i32 displacement. -/" % n)
+        txt.append("theorem %s_offset_ok (avx : Bool) (dest base : Fin 16) (disp : Int32) :" % n)
+        txt.append("    MethodOk %s %s %s (Address.offset (R base) disp) (.off (R base) disp) :=" % (e, w, gexp))
+        txt.append("  leaf_offset %s base disp %s" % (reg, hl))
+        txt.append("")
+        txt.append("/-- `%s` with `Address::index`: every register, every index but rsp, every scale, **every** i32 displacement. -/" % n)
+        txt.append("theorem %s_index_ok (avx : Bool) (dest index : Fin 16) (hi : index.val ≠ 4) (scale : Fin 4) (disp : Int32) :" % n)
+        txt.append("    MethodOk %s %s %s (Address.index (R index) (Sn scale.val) disp) (.idx (R index) (Sn scale.val) disp) :=" % (e, w, gexp))
+        txt.append("  leaf_index %s index hi scale disp %s" % (reg, hl))
+        txt.append("")
+        txt.append("/-- `%s` with `Address::rip`: every register, **every** i32 displacement. -/" % n)
+        txt.append("theorem %s_rip_ok (avx : Bool) (dest : Fin 16) (disp : Int32) :" % n)
+        txt.append("    MethodOk %s %s %s (Address.rip disp) (.rip disp) :=" % (e, w, gexp))
+        txt.append("  leaf_rip %s disp %s" % (reg, hl))
+        txt.append("")
+        items.append((n, "\n".join(txt), 2 if guard != "true" else 1))
+    mods = [[] for _ in range(nmods)]
+    load = [0] * nmods
+    for n, t, c in sorted(items, key=lambda x: (-x[2], x[0])):
+        i = load.index(min(load))
+        mods[i].append((n, t))
+        load[i] += c
+    files = {}
+    for i, ms in enumerate(mods):
+        body = ["import DoraModel.X64.Interface",
+                "/-! GENERATED by tools/rs2lean_x64.py from dora-asm/src/x64.rs — do not edit.",
+                "Per-method theorems of the methods that take one register and one `Address` (C07, sentence 1). -/",
+                "set_option Elab.async false", "set_option maxRecDepth 4000", "set_option maxHeartbeats 8000000",
+                "namespace Dora.X64.C07", "open Dora.X64 Dora.X64.Dec", ""]
+        names = []
+        for n, t in sorted(ms):
+            body.append(t)
+            names += ["Dora.X64.C07.%s_%s" % (n, k) for k in ("addr", "offset_ok", "index_ok", "rip_ok")]
+        body.append("end Dora.X64.C07")
+        files["X64Addr%d" % i] = ("\n".join(body) + "\n", names)
+    return files
+
+
 def write_if_changed(path, text):
     os.makedirs(os.path.dirname(path), exist_ok=True)
     if os.path.exists(path) and open(path).read() == text:
@@ -1108,6 +1190,12 @@ def main(argv):
         if write_if_changed(os.path.join(lean, "DoraModel/Gen/%s.lean" % mod), txt):
             changed.append("Gen/%s.lean" % mod)
         thm_names["DoraModel.Gen." + mod] = names
+    addr_names = {}
+    if os.path.exists(os.path.join(lean, "DoraModel/X64/Interface.lean")):
+        for mod, (txt, names) in gen_addr_theorems(g, methods, specs).items():
+            if write_if_changed(os.path.join(lean, "DoraModel/Gen/%s.lean" % mod), txt):
+                changed.append("Gen/%s.lean" % mod)
+            addr_names["DoraModel.Gen." + mod] = names
     if write_if_changed(os.path.join(harness, "src/dispatch.rs"), gen_dispatch_rust(g, methods)):
         changed.append("dispatch.rs")
     rep = dict(
@@ -1118,6 +1206,7 @@ def main(argv):
         methods=methods,
         unspecified=[m["name"] for m in methods if not m["admin"] and m["sig"] is not None and m["name"] not in specs],
         theorem_modules=thm_names,
+        addr_theorem_modules=addr_names,
         changed=changed)
     if report:
         with open(report, "w") as f:
